@@ -3,6 +3,7 @@
 package zygo
 
 import (
+	"bufio"
 	"fmt"
 	"math"
 	"strconv"
@@ -285,4 +286,12 @@ func VerifFloatBits(x Sexp) (float64, bool) {
 		return f.Val, true
 	}
 	return 0, false
+}
+
+// VerifReplEntry hands the input (lines of text) to the REPL's expression reader
+// (Prompter.getExpressionWithLiner, without liner) on the interpreter's own parser and
+// returns what it returns: the text of the entry it read, its expressions, the error.
+func VerifReplEntry(env *Zlisp, input string) (string, []Sexp, error) {
+	pr := &Prompter{prompt: ""}
+	return pr.getExpressionWithLiner(env, bufio.NewReader(strings.NewReader(input)), true)
 }
